@@ -25,21 +25,7 @@ P.replay_script = 'dyn/C02.py'
 P.verify(S.solvestep_contract())
 
 # ---- SolveStep (not traced): what callers (C15) rely on --------------------------------------------------------
-P.verify(fn(
-    'sfc_models.equation_solver.EquationSolver.SolveStep', name='sfc_models.equation_solver.EquationSolver.SolveStep[not traced]',
-    args=dict(self=Ref('EquationSolver'), step=INT),
-    float_mode='xreal',
-    requires=[('not_traced', 'is_none(self.TraceStep)'), ('cap_nonneg', 'self.MaxIterations >= 0'),
-              ('solver_ready', S.READY), ('names_and_series_distinct', S.DISTINCT),
-              ('tolerance_parameter_finite', 'is_none(self.ParameterErrorTolerance) or isfinite(get(self.ParameterErrorTolerance))')],
-    ensures=[('other_lists_untouched', 'lists_unchanged_except_series_of(self)'),
-             ('no_dict_or_field_change', "heap_unchanged_except('tyof', 'len.*', 'el.*')"),
-             ('one_point_per_simultaneous_and_lagged_series', S.KEPT)],
-    raises=[RaisesSpec('ValueError', when='True', ensures=[S.INTACT]),
-            RaisesSpec('NameError', when='True', ensures=[S.INTACT]),
-            RaisesSpec('OtherError', when='True', ensures=[S.INTACT])],
-    only_raises=True,
-))
+P.verify(S.solvestep_wrapper_contract())
 
 # ---- duplicate codes ------------------------------------------------------------------------------------------
 COUNTRY_HAS = 'any(self.CountryList[j].Code == item for j in range(0, len(self.CountryList)))'
